@@ -33,6 +33,13 @@ def near_transition(lat: float, eps: float = 1e-9) -> bool:
     return False
 
 
+def nearest_transition(lat: float):
+    """(NL k of the nearest transition latitude T(k), |abs(lat) - T(k)|)"""
+    a = abs(lat)
+    best = min(TRANS.items(), key=lambda kv: abs(kv[1] - a))
+    return best[0], abs(best[1] - a)
+
+
 def NL_allowed(lat: float, eps: float = 1e-9):
     """set of NL values acceptable at lat (both neighbours within eps of a transition)"""
     a = abs(lat)
